@@ -8,8 +8,9 @@ other doubles the rounding of `a-b` matters only when `|a-b|` is within an ulp o
 
 Go `Similar` methods never return an error and (after the fixes) contain no slice index that can
 be out of range; the only fault left is calling `Similar` on a nil interface / nil `*Bounds`
-member, which is outside the property (the eight types) and is not modelled (`Geom.nil` as a
-receiver answers `false`; the generator never produces it).
+member, which is outside the property (the eight types): in `sim` a `Geom.nil` receiver answers
+`false`; `simE` at the end of this file is `sim` with that panic as a modelled fault (compared with
+the real code on the lines tagged `nilm`).
 -/
 namespace GeomV.C15
 open GeomV
@@ -117,6 +118,59 @@ def sim : RGeom → Rat → RGeom → Bool
 def simL : List RGeom → Rat → List (RGeom → Bool)
   | [], _ => []
   | g :: gs, e => sim g e :: simL gs e
+end
+
+/-! ### nil interface values (outside the property's eight types; modelled as faults)
+
+Calling `Similar` on a nil interface value panics (`runtime error: invalid memory address or nil
+pointer dereference`). A nil interface can only be a RECEIVER as a member of a collection on the
+receiver side (`gc1.Similar(gc2[i], tolerance)` with `gc1 == nil`) or as the top-level receiver; as
+an ARGUMENT it falls into the `default:` branch of every type switch (`false`). `simE` is `sim` with
+that fault: the greedy loops run in `Except Fault`, so the panic happens exactly when the loops reach
+a nil receiver member — not when the count check or an earlier unmatched member has already
+answered `false`. (A typed nil `*Bounds` cannot be written in the line protocol and is not modelled.) -/
+
+inductive Fault where
+  /-- `panic: runtime error: invalid memory address or nil pointer dereference` -/
+  | nilDeref
+deriving Repr, DecidableEq
+
+def removeFirstM {β : Type} (p : β → Except Fault Bool) : List β → Except Fault (Option (List β))
+  | [] => .ok none
+  | y :: ys =>
+    match p y with
+    | .error f => .error f
+    | .ok true => .ok (some ys)
+    | .ok false =>
+      match removeFirstM p ys with
+      | .error f => .error f
+      | .ok r => .ok (r.map (y :: ·))
+
+def greedyM {β : Type} : List (β → Except Fault Bool) → List β → Except Fault Bool
+  | [], _ => .ok true
+  | p :: ps, ys =>
+    match removeFirstM p ys with
+    | .error f => .error f
+    | .ok none => .ok false
+    | .ok (some ys') => greedyM ps ys'
+
+mutual
+/-- `g.Similar(h, e)` including the nil-interface panic -/
+def simE : RGeom → Rat → RGeom → Except Fault Bool
+  | .nil, _, _ => .error .nilDeref
+  | .collection gs, e, h => match h with
+    | .collection hs => if gs.length != hs.length then .ok false else greedyM (simLE gs e) hs
+    | _ => .ok false
+  | .point p, e, h => .ok (sim (.point p) e h)
+  | .multiPoint ps, e, h => .ok (sim (.multiPoint ps) e h)
+  | .lineString ps, e, h => .ok (sim (.lineString ps) e h)
+  | .multiLineString ls, e, h => .ok (sim (.multiLineString ls) e h)
+  | .polygon rs, e, h => .ok (sim (.polygon rs) e h)
+  | .multiPolygon ps, e, h => .ok (sim (.multiPolygon ps) e h)
+  | .bounds a b, e, h => .ok (sim (.bounds a b) e h)
+def simLE : List RGeom → Rat → List (RGeom → Except Fault Bool)
+  | [], _ => []
+  | g :: gs, e => simE g e :: simLE gs e
 end
 
 end GeomV.C15
